@@ -121,6 +121,14 @@ class CFG:
         if isinstance(expr, ast.UnaryOp) and isinstance(expr.op, ast.Not):
             t, f = self._cond(expr.operand, frontier, stmt)
             return f, t
+        if isinstance(expr, ast.Call) and self._virtual_depth < 3:
+            inner = _predicate_body(expr)
+            if inner is not None:
+                self._virtual_depth += 1
+                try:
+                    return self._cond(inner, frontier, stmt)
+                finally:
+                    self._virtual_depth -= 1
         if _is_quantifier(expr):
             # any(p(x) for x in it if c(x)) / all(...): the search loop it abbreviates - a `for` node over `it`, the filters and the
             # element test as branch conditions inside it, the answer on the first decisive element or on exhaustion
@@ -517,6 +525,55 @@ def path_text(path: Optional[List[Edge]], limit: int = 12) -> List[str]:
     out = [e.describe() for e in path if e.label is not None]
     if len(out) > limit:
         out = out[: limit // 2] + ["..."] + out[-limit // 2 :]
+    return out
+
+
+# single-expression predicate methods of the analysed program, by name (set by the program index when it is built): a condition
+# `self.name(args)` / `cls.name(args)` is decomposed like the predicate's own expression with the arguments substituted
+PREDICATES: Dict[str, ast.FunctionDef] = {}
+
+
+def set_predicates(preds: Dict[str, ast.FunctionDef]) -> None:
+    PREDICATES.clear()
+    PREDICATES.update(preds)
+
+
+def _predicate_body(call: ast.Call) -> Optional[ast.AST]:
+    f = call.func
+    if not (isinstance(f, ast.Attribute) and isinstance(f.value, ast.Name) and f.attr in PREDICATES):
+        return None
+    fn = PREDICATES[f.attr]
+    static = any(isinstance(d, ast.Name) and d.id == "staticmethod" for d in fn.decorator_list)
+    if f.value.id not in ("self", "cls") and not f.value.id[:1].isupper():
+        return None
+    params = [a.arg for a in fn.args.args][0 if static else 1:]
+    if fn.args.vararg or fn.args.kwarg or fn.args.kwonlyargs or any(isinstance(a, ast.Starred) for a in call.args) \
+            or any(k.arg is None for k in call.keywords) or len(call.args) > len(params):
+        return None
+    binding: Dict[str, ast.AST] = dict(zip(params, call.args))
+    for k in call.keywords:
+        if k.arg not in params or k.arg in binding:
+            return None
+        binding[k.arg] = k.value
+    defaults = dict(zip(reversed([a.arg for a in fn.args.args]), reversed(fn.args.defaults)))
+    for p in params:
+        if p not in binding:
+            if p not in defaults:
+                return None
+            binding[p] = defaults[p]
+    body = [st for st in fn.body if not (isinstance(st, ast.Expr) and isinstance(st.value, ast.Constant))]
+    expr = copy.deepcopy(body[0].value)
+
+    class Sub(ast.NodeTransformer):
+        def visit_Name(self, node):
+            if node.id in binding and isinstance(node.ctx, ast.Load):
+                return ast.copy_location(copy.deepcopy(binding[node.id]), node)
+            return node
+
+    out = Sub().visit(expr)
+    # positions of the call site, so that reports point at the condition that was written
+    for x in ast.walk(out):
+        ast.copy_location(x, call)
     return out
 
 
